@@ -174,3 +174,46 @@ func WitnessValues(w witness.Witness) []*big.Int {
 	}
 	return out
 }
+
+// curveB is the constant b of the short Weierstrass equation y² = x³ + b of G1.
+var curveB = map[string]int64{"bn254": 3, "bls12-377": 1, "bls12-381": 4, "bls24-315": 1, "bls24-317": 4, "bw6-633": 4, "bw6-761": -1}
+
+// TorsionG1 returns a non-trivial point T of G1's curve whose order divides the
+// cofactor (T = [r]P for a curve point P outside the prime-order subgroup), in
+// the G1Affine type of like. ok is false for curves with cofactor 1 (bn254).
+// e(T, Q) = 1 for every Q of order r, so P+T pairs like P: only an explicit
+// subgroup check tells them apart.
+func TorsionG1(curveName string, r *big.Int, like reflect.Value, seed int) (t reflect.Value, ok bool) {
+	b, known := curveB[curveName]
+	if !known || curveName == "bn254" {
+		return reflect.Value{}, false
+	}
+	defer func() {
+		if recover() != nil {
+			ok = false
+		}
+	}()
+	p := NewLike(like)
+	x, y := p.FieldByName("X"), p.FieldByName("Y")
+	rhs, tmp := NewLike(x), NewLike(x)
+	for k := 0; k < 200; k++ {
+		call(x, "SetInt64", reflect.ValueOf(int64(1+seed%50+k)))
+		call(rhs, "Square", x.Addr())
+		call(rhs, "Mul", rhs.Addr(), x.Addr())
+		call(tmp, "SetInt64", reflect.ValueOf(b))
+		call(rhs, "Add", rhs.Addr(), tmp.Addr())
+		if res := call(y, "Sqrt", rhs.Addr()); res[0].IsNil() {
+			continue
+		}
+		if !call(p, "IsOnCurve")[0].Bool() {
+			continue
+		}
+		tt := NewLike(like)
+		PMul(tt, p, r)
+		if PIsInfinity(tt) {
+			continue
+		}
+		return tt, true
+	}
+	return reflect.Value{}, false
+}
